@@ -1,5 +1,7 @@
 import ZbossModel.Reasm
 import ZbossModel.Props.C09
+import ZbossModel.Props.C01
+import ZbossModel.Proofs.RxWire
 /-! # C10 - fragmented incoming messages are reassembled into exactly the original
 
 `frameReceived` is the model of the fragment handling at the top of `ZBOSS.frame_received`; the
@@ -126,6 +128,264 @@ theorem C10_loopback (h : HLH) (hh : h ≠ 0#32) (data : Bytes)
   have hb : (HLPacket.mk (some h) data).body = HLH.bytes h ++ data := Frag.body_some h hh data
   rw [← hb, ← hcat, hfr]
   rfl
+
+
+/-! ## bytes → frames: the receiver's stream decoder on the wire image of a fragment train -/
+
+/-- `f`, stamped with any sequence number, is decoded from its own bytes (followed by anything) by `_extract_frame` -/
+def WireOK (f : Frame) : Prop :=
+  ∀ (s : Fin 4) (r : Bytes), tryFrame ((Frame.stamp s.val f).serialize ++ r) =
+    .ok (Frame.stamp s.val f) (Frame.stamp s.val f).serialize.length
+
+theorem wireOK_first (h : HLH) (hh : h ≠ 0#32) (data : Bytes) (first : Nat) (h4 : 4 ≤ first) (h247 : first ≤ 247)
+    (hd : first ≤ 4 + data.length) : WireOK (Frag.firstFrag ⟨some h, data⟩ first) := by
+  intro s r
+  have hbl := HLH.bytes_length h
+  have hn : first + 7 = (HLPacket.mk (some h) (data.take (first - 4))).serialize.length + 5 := by
+    simp [HLPacket.serialize, HLPacket.body, hh, hbl]; omega
+  obtain ⟨f1, _, f3⟩ := flags_stamped 0x40 s (by simp)
+  have hfirst : Frame.hasFlag (wireFlags 0x40 s.val) Gen.flagFirstFrag = true := by rw [f1]; decide
+  have := tryFrame_built_first 0x40 s.val (first + 7) h (data.take (first - 4)) r hh hn (by omega) f3 hfirst
+  have hl := (C05_frame_wf 0x40 s.val (first + 7) ⟨some h, data.take (first - 4)⟩ hn (by omega)).2
+  simp only [Frag.firstFrag]
+  rw [show Gen.flagFirstFrag = 0x40 from rfl, hl]
+  exact this
+
+theorem wireOK_last (tail : Bytes) (hl : tail.length ≤ 247) : WireOK (Frag.lastFrag tail) := by
+  intro s r
+  have hn : tail.length + 7 = (HLPacket.mk none tail).serialize.length + 5 := by
+    simp [HLPacket.serialize, HLPacket.body]; omega
+  obtain ⟨f1, _, f3⟩ := flags_stamped 0x80 s (by simp)
+  have hfirst : Frame.hasFlag (wireFlags 0x80 s.val) Gen.flagFirstFrag = false := by rw [f1]; decide
+  have := tryFrame_built_cont 0x80 s.val (tail.length + 7) tail r hn (by omega) f3 hfirst
+  have hl2 := (C05_frame_wf 0x80 s.val (tail.length + 7) ⟨none, tail⟩ hn (by omega)).2
+  simp only [Frag.lastFrag]
+  rw [show Gen.flagLastFrag = 0x80 from rfl, hl2]
+  exact this
+
+theorem wireOK_mid (ser : Bytes) (idx : Nat) (hwin : idx + 247 ≤ ser.length) : WireOK (Frag.midFrag ser idx) := by
+  intro s r
+  have hlen : (slice ser idx (idx + Gen.bodyMax)).length = 247 := Frag.slice_length ser idx 247 hwin
+  have hn : Gen.bodyMax + 7 = (HLPacket.mk none (slice ser idx (idx + Gen.bodyMax))).serialize.length + 5 := by
+    rw [Frag.bodyMax_eq] at hlen ⊢
+    simp [HLPacket.serialize, HLPacket.body, hlen]
+  obtain ⟨f1, _, f3⟩ := flags_stamped 0 s (by simp)
+  have hfirst : Frame.hasFlag (wireFlags 0 s.val) Gen.flagFirstFrag = false := by rw [f1]; decide
+  have := tryFrame_built_cont 0 s.val (Gen.bodyMax + 7) _ r hn (by rw [Frag.bodyMax_eq]; omega) f3 hfirst
+  have hl2 := (C05_frame_wf 0 s.val (Gen.bodyMax + 7) ⟨none, slice ser idx (idx + Gen.bodyMax)⟩ hn
+    (by rw [Frag.bodyMax_eq]; omega)).2
+  rw [Frag.stamp_mid, hl2]
+  exact this
+
+/-- every fragment the fragmenter produces for a message that does not fit one frame is decodable from its bytes -/
+theorem fragments_wireOK (h : HLH) (hh : h ≠ 0#32) (data : Bytes)
+    (hbig : Gen.bodyMax < (HLPacket.mk (some h) data).body.length) :
+    ∀ f ∈ Frag.fragments (Frag.whole ⟨some h, data⟩) ⟨some h, data⟩, WireOK f := by
+  have hbody : (HLPacket.mk (some h) data).body = HLH.bytes h ++ data := Frag.body_some h hh data
+  have hbl := HLH.bytes_length h
+  rw [hbody] at hbig
+  generalize hser : HLH.bytes h ++ data = ser at *
+  have hsl : ser.length = 4 + data.length := by rw [← hser]; simp [hbl]
+  obtain ⟨n, hn⟩ : ∃ n, Frag.count ⟨some h, data⟩ = n + 2 := by
+    refine ⟨Frag.count ⟨some h, data⟩ - 2, ?_⟩
+    unfold Frag.count Frag.ceilDiv
+    rw [hbody]
+    simp only [Frag.bodyMax_eq] at *
+    omega
+  have hc : Frag.ceilDiv ser.length Gen.bodyMax = n + 2 := by rw [← hn]; unfold Frag.count; rw [hbody]
+  obtain ⟨f4, f247, hidx, hlo, hhi⟩ := Frag.idx_facts ser.length n hc
+  rw [Frag.fragments_eq_nf _ _ n hn]
+  unfold Frag.fragmentsNF
+  simp only [hbody]
+  generalize hfirst : Frag.firstSize ser.length = first at *
+  have hlastIdx : first + Gen.bodyMax * (Frag.nIdx ser.length - 1) = first + 247 * n := by
+    rw [hidx, Frag.bodyMax_eq]; simp
+  rw [hlastIdx]
+  have hmid : ∀ j, j < n → first + Gen.bodyMax * j + 247 ≤ ser.length := by
+    intro j hj
+    have := Nat.mul_le_mul_left 247 (show j + 1 ≤ n by omega)
+    rw [Frag.bodyMax_eq]; omega
+  intro f hf
+  simp only [List.mem_cons, List.mem_append, List.mem_map, List.mem_range, List.not_mem_nil, or_false] at hf
+  rcases hf with hf | ⟨j, hj, hf⟩ | hf
+  · subst hf; exact wireOK_first h hh data first f4 f247 (by omega)
+  · subst hf; exact wireOK_mid ser _ (hmid j hj)
+  · subst hf; exact wireOK_last _ (by simp; omega)
+
+/-- `ws` is `fs` with every frame stamped by the transmitter with some sequence number 0..3 -/
+inductive Stamped : List Frame → List Frame → Prop
+  | nil : Stamped [] []
+  | cons (s : Fin 4) (f : Frame) {fs ws : List Frame} : Stamped fs ws → Stamped (f :: fs) (Frame.stamp s.val f :: ws)
+
+theorem run_nil : run tryFrame [] = ([], []) := by
+  have := run_eq zbossScanner []
+  simp only [zbossScanner] at this
+  rw [this]; rfl
+
+/-- the left-to-right parse of the wire image of a stamped train is the train itself, nothing left over -/
+theorem run_train (fs ws : List Frame) (hst : Stamped fs ws) (hok : ∀ f ∈ fs, WireOK f) :
+    run tryFrame (ws.map Frame.serialize).flatten = (ws, []) := by
+  induction hst with
+  | nil => exact run_nil
+  | cons s f hrest ih =>
+    rename_i fs' ws'
+    have hre := run_eq zbossScanner ((Frame.stamp s.val f :: ws').map Frame.serialize).flatten
+    simp only [zbossScanner] at hre
+    rw [hre]
+    simp only [List.map_cons, List.flatten_cons]
+    rw [hok f (by simp) s _]
+    simp only [List.drop_left]
+    rw [ih (fun g hg => hok g (by simp [hg]))]
+
+theorem stamp_hl (s : Nat) (f : Frame) : (Frame.stamp s f).hl = f.hl := rfl
+
+theorem stamp_flags (s : Nat) (f : Frame) : LL.flags (Frame.stamp s f).ll = ((s <<< 2) ||| LL.flags f.ll) % 256 := by
+  simp [Frame.stamp, LL.sealed]
+
+theorem stamp_body (s : Nat) (f : Frame) : bodyOf (Frame.stamp s f) = bodyOf f := rfl
+
+theorem stamped_flags (fl : Nat) (s : Fin 4) (f : Frame) (hf : LL.flags f.ll = fl)
+    (hfl : fl = 0 ∨ fl = 0x40 ∨ fl = 0x80 ∨ fl = 0xC0) :
+    isFirst (Frame.stamp s.val f) = Frame.hasFlag fl Gen.flagFirstFrag ∧
+    isLast (Frame.stamp s.val f) = Frame.hasFlag fl Gen.flagLastFrag ∧ isAck (Frame.stamp s.val f) = false := by
+  have := flags_stamped fl s hfl
+  unfold isFirst isLast isAck
+  rw [stamp_flags, hf]
+  have e : ((s.val <<< 2) ||| fl) % 256 = wireFlags fl s.val := by
+    rcases hfl with h | h | h | h <;> subst h <;> revert s <;> decide
+  rw [e]; exact this
+
+theorem stamped_append_inv (a : List Frame) (x : Frame) (ws : List Frame) (h : Stamped (a ++ [x]) ws) :
+    ∃ (wa : List Frame) (s : Fin 4), ws = wa ++ [Frame.stamp s.val x] ∧ Stamped a wa := by
+  induction a generalizing ws with
+  | nil =>
+    cases h with
+    | cons s f hr => cases hr; exact ⟨[], s, rfl, .nil⟩
+  | cons y a ih =>
+    cases h with
+    | cons s f hr =>
+      obtain ⟨wa, s', hw, hs⟩ := ih _ hr
+      exact ⟨Frame.stamp s.val y :: wa, s', by rw [hw]; rfl, .cons s y hs⟩
+
+theorem stamped_mids (mids wm : List Frame) (h : Stamped mids wm) (hm : ∀ m ∈ mids, LL.flags m.ll = 0) :
+    (∀ m ∈ wm, isFirst m = false ∧ isLast m = false ∧ isAck m = false ∧ m.hl.isSome = true → True) ∧
+    (∀ m ∈ wm, isFirst m = false ∧ isLast m = false) ∧ wm.map bodyOf = mids.map bodyOf := by
+  induction h with
+  | nil => simp
+  | cons s f hr ih =>
+    obtain ⟨_, i2, i3⟩ := ih (fun m hm' => hm m (by simp [hm']))
+    have hf := stamped_flags 0 s f (hm f (by simp)) (by simp)
+    refine ⟨fun _ _ _ => trivial, ?_, ?_⟩
+    · intro m hm'
+      simp only [List.mem_cons] at hm'
+      rcases hm' with hm' | hm'
+      · subst hm'; exact ⟨by rw [hf.1]; decide, by rw [hf.2.1]; decide⟩
+      · exact i2 m hm'
+    · simp only [List.map_cons, i3, stamp_body]
+
+theorem stamped_snoc (a wa : List Frame) (x : Frame) (s : Fin 4) (h : Stamped a wa) :
+    Stamped (a ++ [x]) (wa ++ [Frame.stamp s.val x]) := by
+  induction h with
+  | nil => exact .cons s x .nil
+  | cons s' f _ ih => exact .cons s' f ih
+
+theorem deliveredOf_append (a b : List Out) : deliveredOf (a ++ b) = deliveredOf a ++ deliveredOf b := by
+  simp [deliveredOf]
+
+theorem delivered_all (tr : Bool) (ws : List Frame) (h : ∀ w ∈ ws, isAck w = false ∧ w.hl.isSome = true) :
+    deliveredOf (ws.flatMap (outsOf tr)) = ws := by
+  induction ws with
+  | nil => rfl
+  | cons w ws ih =>
+    obtain ⟨ha, hs⟩ := h w (by simp)
+    obtain ⟨p, hp⟩ := Option.isSome_iff_exists.mp hs
+    have h1 : deliveredOf (outsOf tr w) = [w] := by
+      simp only [outsOf, ha, Bool.false_eq_true, if_false, hp, deliveredOf]
+      cases tr <;> simp
+    rw [List.flatMap_cons, deliveredOf_append, h1, ih (fun x hx => h x (by simp [hx]))]
+    rfl
+
+/-- **own transmitter → wire → own receiver → reassembly**: a message that does not fit one frame is cut by the
+    host's fragmenter, every fragment stamped with any sequence number and serialized; whatever the reads are cut
+    into, whatever the handler does and whatever stale fragments were pending, the receiver hands up exactly
+    the fragments, and their reassembly is the original command header and parameters, with nothing left pending -/
+theorem C10_wire_loopback (hnd : Frame → Bool) (tr : Bool) (h : HLH) (hh : h ≠ 0#32) (data : Bytes)
+    (hbig : Gen.bodyMax < (HLPacket.mk (some h) data).body.length) (ws : List Frame)
+    (hst : Stamped (Frag.fragments (Frag.whole ⟨some h, data⟩) ⟨some h, data⟩) ws)
+    (chunks : List Bytes) (hchunks : chunks.flatten = (ws.map Frame.serialize).flatten) (pending : List Frame) :
+    deliveredOf (session hnd { transport := tr } chunks).2 = ws ∧
+    (feedFrames pending ws).1 = [] ∧
+    (feedFrames pending ws).2.getLast? = some (Outcome.msg ⟨some h, data⟩) := by
+  obtain ⟨first, last, mids, hfr, hcat, hsz, hf1, hf2, hfm, _⟩ := Frag.C09_partition h hh data hbig
+  have hwire := fragments_wireOK h hh data hbig
+  have hrun := run_train _ ws hst hwire
+  -- decompose the stamped train
+  rw [hfr] at hst
+  cases hst with
+  | cons s0 f0 hrest =>
+    rename_i ws'
+    obtain ⟨wm, sl, hws', hsm⟩ := stamped_append_inv mids last ws' hrest
+    subst hws'
+    obtain ⟨_, hmf, hmb⟩ := stamped_mids mids wm hsm hfm
+    have hff := stamped_flags 0x40 s0 first hf1 (by simp)
+    have hlf := stamped_flags 0x80 sl last hf2 (by simp)
+    -- every fragment carries a packet
+    have hsome : ∀ f ∈ first :: (mids ++ [last]), f.hl.isSome = true := by
+      intro f hf
+      have := (hsz f (by rw [hfr]; exact hf)).1
+      cases hhl : f.hl with
+      | none => simp [Frag.bodyOf, hhl] at this
+      | some p => rfl
+    have hack : ∀ w ∈ Frame.stamp s0.val first :: (wm ++ [Frame.stamp sl.val last]),
+        isAck w = false ∧ w.hl.isSome = true := by
+      -- flags of the stamped frames never carry the ACK bit; `hl` is untouched by stamping
+      have hall : ∀ (fs ws : List Frame), Stamped fs ws →
+          (∀ f ∈ fs, (LL.flags f.ll = 0 ∨ LL.flags f.ll = 0x40 ∨ LL.flags f.ll = 0x80 ∨ LL.flags f.ll = 0xC0) ∧ f.hl.isSome = true) →
+          ∀ w ∈ ws, isAck w = false ∧ w.hl.isSome = true := by
+        intro fs ws hs
+        induction hs with
+        | nil => intro _ w hw; simp at hw
+        | cons s f hr ih =>
+          intro hfs w hw
+          simp only [List.mem_cons] at hw
+          rcases hw with hw | hw
+          · subst hw
+            obtain ⟨hfl, hs'⟩ := hfs f (by simp)
+            exact ⟨(stamped_flags _ s f rfl hfl).2.2, by rw [stamp_hl]; exact hs'⟩
+          · exact ih (fun g hg => hfs g (by simp [hg])) w hw
+      apply hall (first :: (mids ++ [last])) _ (Stamped.cons s0 first (stamped_snoc mids wm last sl hsm))
+      intro f hf
+      refine ⟨?_, hsome f hf⟩
+      simp only [List.mem_cons, List.mem_append, List.not_mem_nil, or_false] at hf
+      rcases hf with hf | hf | hf
+      · subst hf; right; left; exact hf1
+      · left; exact hfm f hf
+      · subst hf; right; right; left; exact hf2
+    refine ⟨?_, ?_⟩
+    · rw [C01_chunking, hchunks, hrun]
+      exact delivered_all tr _ hack
+    · have hbody : ((Frame.stamp s0.val first :: wm ++ [Frame.stamp sl.val last]).map bodyOf).flatten =
+          HLH.bytes h ++ data := by
+        have hb : (HLPacket.mk (some h) data).body = HLH.bytes h ++ data := Frag.body_some h hh data
+        rw [← hb, ← hcat, hfr]
+        simp only [List.map_cons, List.map_append, List.map_nil, stamp_body, hmb]
+        rfl
+      have := C10_reassembly pending (Frame.stamp s0.val first) (Frame.stamp sl.val last) wm h data
+        ⟨by rw [hff.1]; decide, by rw [hff.2.1]; decide⟩ hmf ⟨by rw [hlf.1]; decide, by rw [hlf.2.1]; decide⟩ hbody
+      have e : Frame.stamp s0.val first :: (wm ++ [Frame.stamp sl.val last]) =
+          Frame.stamp s0.val first :: wm ++ [Frame.stamp sl.val last] := rfl
+      rw [e, this]
+      refine ⟨rfl, ?_⟩
+      simp only []
+      rw [List.getLast?_append]
+      simp
+
+/-- the hypotheses of `C10_wire_loopback` are satisfiable for every message: stamp every fragment (here with 0 -
+    any per-fragment choice works the same way) and deliver the bytes in one read -/
+theorem stamped_exists (fs : List Frame) : Stamped fs (fs.map (Frame.stamp 0)) := by
+  induction fs with
+  | nil => exact .nil
+  | cons f fs ih => exact .cons 0 f ih
 
 /-! ## non-vacuity -/
 example : isFirst ⟨LL.withFlags (LL.base 20) 0x44, some ⟨some 0x20000#32, [1]⟩⟩ = true ∧
